@@ -274,7 +274,7 @@ def run_tcp_session(params, ch):
     size = PUSH[params['push']]
     ref_res, ref_fs = mem_reference(size)
     small = params['buffers'] == 'small'
-    srv = tcpsim.SimServer(session_cfg(), rcvbuf=4096 if small else None, slow=0.0005 if small else 0.0)
+    srv = tcpsim.SimServer(session_cfg(), rcvbuf=4096 if small else None, slow=0.0005 if small else 0.0, frag=(7, 10, 9, 3000, 11, 5, 40000) if params.get('frag') else None)
     viol = []
     res = []
     dev = None
@@ -362,7 +362,10 @@ def scripts(tier):
 
 
 def session_scenarios(tier):
-    return [{'transport': t, 'buffers': b, 'push': p} for t in ('sync', 'async') for b in ('default', 'small') for p in (('small', 'big') if tier == 'thorough' or True else ('small',))]
+    out = [{'transport': t, 'buffers': b, 'push': p} for t in ('sync', 'async') for b in ('default', 'small') for p in (('small', 'big') if tier == 'thorough' or True else ('small',))]
+    # the device's bytes arrive in pieces that ignore packet boundaries (headers in three fragments, the last one glued to what follows)
+    out += [{'transport': t, 'buffers': 'default', 'push': 'small', 'frag': True} for t in ('sync', 'async')]
+    return out
 
 
 def parts(tier):
